@@ -58,7 +58,7 @@ Proof. vm_compute. reflexivity. Qed.
 
 (* C06 for the binary64 model *)
 Theorem kmeans_c06_f64 : forall lg ex T0 T1 T2 P rot D cfg points weights part,
-  kmeans (F64g lg ex) (reds_chk (F64g lg ex) sum_ok_f64 val_ok_f64 T0 P) rot D cfg points weights part <> Panic 99 ->
+  kmeans (F64g lg ex) (reds_chk (F64g lg ex) sum_ok_f64 val_ok_f64 cmp_ok_f64 T0 P) rot D cfg points weights part <> Panic 99 ->
   kmeans (F64g lg ex) (reds_tree (F64g lg ex) T1 P) rot D cfg points weights part =
   kmeans (F64g lg ex) (reds_tree (F64g lg ex) T2 P) rot D cfg points weights part.
 Proof.
@@ -66,7 +66,7 @@ Proof.
 Qed.
 
 Theorem kmeans_c06_f64_chk : forall lg ex T1 T2 P rot D cfg points weights part r,
-  kmeans (F64g lg ex) (reds_chk (F64g lg ex) sum_ok_f64 val_ok_f64 T1 P) rot D cfg points weights part = r ->
+  kmeans (F64g lg ex) (reds_chk (F64g lg ex) sum_ok_f64 val_ok_f64 cmp_ok_f64 T1 P) rot D cfg points weights part = r ->
   r <> Panic 99 ->
   kmeans (F64g lg ex) (reds_tree (F64g lg ex) T2 P) rot D cfg points weights part = r.
 Proof.
@@ -89,7 +89,7 @@ Lemma kmeans_example :
     = Ok [0;0;0;2;2;2;1;1;1]%N
   /\ kmeans Fw (reds_tree Fw ex_tree P_id) (Some ex_id) 2 ex_cfg ex_pts ex_ws [0;2;2;2;2;2;2;2;1]%N
     = Ok [0;0;0;2;2;2;1;1;1]%N
-  /\ kmeans Fw (reds_chk Fw sum_ok_f64 val_ok_f64 T_seq P_id) (Some ex_id) 2 ex_cfg ex_pts ex_ws [0;2;2;2;2;2;2;2;1]%N
+  /\ kmeans Fw (reds_chk Fw sum_ok_f64 val_ok_f64 cmp_ok_f64 T_seq P_id) (Some ex_id) 2 ex_cfg ex_pts ex_ws [0;2;2;2;2;2;2;2;1]%N
     = Ok [0;0;0;2;2;2;1;1;1]%N.
 Proof. vm_compute. auto. Qed.
 
